@@ -111,22 +111,22 @@ def _compare(mode, what, obs_expr, obs_dim, case, out):
     cls, frac = qc_common.classify(val)
     if exp_c in ("zero", "inf", "ninf", "nan"):
         if cls != exp_c:
-            out.append((mode, "violation", f"{what}: value class {cls} ({val}), model {exp_c}"))
+            out.append((mode, "violation", f"{what}: value class {cls} ({qc_common.s_(val)}), model {exp_c}"))
         return
     dim = qc_common.project_dim(obs_dim)
     if dim != exp_d:
-        out.append((mode, "violation", f"{what}: dimension {obs_dim} -> {dim}, model {exp_d}"))
+        out.append((mode, "violation", f"{what}: dimension {qc_common.s_(obs_dim)} -> {dim}, model {exp_d}"))
         return
     if exp_c == "irr":
         if cls not in ("irr", "float"):
-            out.append((mode, "violation", f"{what}: value class {cls} ({val}), model irrational finite"))
+            out.append((mode, "violation", f"{what}: value class {cls} ({qc_common.s_(val)}), model irrational finite"))
         return
     want = Fraction(exp_v[0], exp_v[1])
     if cls == "fin" and frac == want:
         return
     if cls == "float" and abs(frac - want) <= abs(want) * Fraction(1, 10**9):
         return
-    out.append((mode, "violation", f"{what}: value {val} under the assignment, model {want}"))
+    out.append((mode, "violation", f"{what}: value {qc_common.s_(val)} under the assignment, model {want}"))
 
 
 def replay_one(case):
@@ -174,7 +174,7 @@ def replay_one(case):
             obs = f"{type(e).__name__}: {str(e)[:100]}"
         if exp_c == "err":
             if obs == "ok":
-                out.append((mode, "violation", f"model reports an error, inference returned dim={odim}"))
+                out.append((mode, "violation", f"model reports an error, inference returned dim={qc_common.s_(odim)}"))
             continue
         if obs != "ok":
             out.append((mode, "violation", f"model accepts ({exp_c}), inference raised {obs}"))
@@ -194,7 +194,7 @@ def replay_one(case):
                     w = wrapper(expr)
                     wd = qc_common.project_dim(w.dimension)
                     if exp_c in ("fin", "irr") and wd != case["d"]:
-                        out.append((mode, "violation", f"{wrapper.__name__}(..).dimension {w.dimension}, model {case['d']}"))
+                        out.append((mode, "violation", f"{wrapper.__name__}(..).dimension {qc_common.s_(w.dimension)}, model {case['d']}"))
                 except Exception as e:  # pylint: disable=broad-except
                     out.append((mode, "violation", f"model accepts, {wrapper.__name__}(..) raised {type(e).__name__}"))
         # the commuting diagram on the real code
@@ -214,7 +214,7 @@ def replay_one(case):
         if exp_c in ("fin", "irr"):
             qd = qc_common.project_dim(q.dimension)
             if qd != qc_common.project_dim(odim):
-                out.append((mode, "violation", f"diagram: quantity dimension {q.dimension}, inferred {odim}"))
+                out.append((mode, "violation", f"diagram: quantity dimension {qc_common.s_(q.dimension)}, inferred {qc_common.s_(odim)}"))
     return case, out
 
 
